@@ -46,7 +46,10 @@ def check(prop, tier, replay=None):
                 if cs['cut'] == 0 or cs['cut'] == cs['nblocks']:
                     conc.append(dict(case=dict(cs, bytes=(0 if cs['cut'] == 0 else -1), how='fail'), out=c['out']))
                     if cs['cut'] == 0:
-                        conc.append(dict(case=dict(cs, bytes=0, how='kill'), out=c['out']))
+                        # nothing written: also what a failing update callback (Prometheus reload) leaves behind
+                        conc.append(dict(case=dict(cs, bytes=0, how='cbfail'), out=c['out']))
+                        if not cs['retry']:
+                            conc.append(dict(case=dict(cs, bytes=0, how='kill'), out=c['out']))
                     continue
                 n = sizes[cs['b']]
                 if tier == 'thorough' and n <= 1000:
@@ -58,7 +61,7 @@ def check(prop, tier, replay=None):
                 for off in offs:
                     # the write failing at that byte (disk full) and the process being killed at that byte
                     conc.append(dict(case=dict(cs, bytes=off, how='fail'), out=c['out']))
-                    if tier == 'quick' or off % 3 == 0 or n > 1000:
+                    if (tier == 'quick' or off % 3 == 0 or n > 1000) and not cs['retry']:
                         conc.append(dict(case=dict(cs, bytes=off, how='kill'), out=c['out']))
         C.write_ndjson(cases_f, conc)
         obs_f = os.path.join(sd, 'obs.ndjson')
